@@ -22,6 +22,17 @@ CHECKS = {
     ),
 }
 
+CHECKS['C15'] = dict(
+    level='model_checking',
+    text='Symbolic execution of RRTStar.obstruction on arbitrary real segments and boxes (coordinates symbolic in '
+         '[-10,10]); on each of the feasible paths of the separating-axis code Z3 proves that the returned verdict '
+         'equals an independent exact decision procedure (Fourier-Motzkin elimination of the segment parameter, '
+         'closed box); multi-box sets are reduced to the single-box result by a solver-checked compositional lemma. '
+         'Covers all real inputs, i.e. strictly more than the lattice enumeration in the property.',
+    design='5/C15',
+    technique='symbolic execution of the Python source + Z3 QF_NRA equivalence against a quantifier-free oracle',
+)
+
 NOT_APPLICABLE = {
 }
 
